@@ -395,6 +395,11 @@ func (w guardedWriter) Write(v any) {
 	case <-w.done:
 		return
 	default:
+		// finish() 可能恰在上面的检查之后关闭了通道：
+		// 此时的写入等同于取消之后的写入，丢弃而不是 panic。
+		defer func() {
+			_ = recover()
+		}()
 		w.channel <- v
 	}
 }
